@@ -360,6 +360,7 @@ def run_history(rng, rec, scratch, hist_id, length):
     ops = []
     results_dir = root / "results"
     run_hashes = {}
+    incomplete = set()
 
     def folder_hash(folder):
         return {k: v[0] for k, v in snap(results_dir / folder).items()}
@@ -367,14 +368,54 @@ def run_history(rng, rec, scratch, hist_id, length):
     names = [NAMES[i] for i in rng.choice(len(NAMES), size=int(rng.integers(2, 5)), replace=False)]
     prefix_sharing = sum(1 for a in names for b in names if a != b and b.startswith(a)) > 0
     for step in range(length):
-        kind = str(rng.choice(["optimize", "optimize", "optimize", "lookup", "import", "genparam"]))
+        kind = str(rng.choice(["optimize", "optimize", "optimize", "lookup", "import", "genparam", "optimize-fail"]))
         name = str(rng.choice(names))
         ops.append([kind, name])
         ctx = {"history": ops[:], "names": names}
         rec.count("history_operations")
         with warnings.catch_warnings(), contextlib.redirect_stdout(io.StringIO()):
             warnings.simplefilter("ignore")
-            if kind == "optimize":
+            if kind == "optimize-fail":
+                # fault injection: the save of this run fails midway (after the run folder and some files exist, before
+                # result.yml is written); the partial folder keeps its run number and is never touched again
+                import glotaran.builtin.io.yml.yml as YML
+
+                point = str(rng.choice(["save_model", "save_scheme", "write_dict"]))
+                ops[-1].append(point)
+                before = set(p.name for p in results_dir.iterdir()) if results_dir.exists() else set()
+                orig = getattr(YML, point)
+
+                def failing(*a, **k):
+                    raise OSError(28, "No space left on device (injected)")
+
+                setattr(YML, point, failing)
+                try:
+                    proj.optimize("m", "p", result_name=name, maximum_number_function_evaluations=1)
+                    err = None
+                except OSError as e:
+                    err = str(e)
+                except Exception as e:  # noqa
+                    err = f"other {type(e).__name__}: {str(e)[:100]}"
+                finally:
+                    setattr(YML, point, orig)
+                rec.count("history_failed_saves")
+                after = set(p.name for p in results_dir.iterdir()) if results_dir.exists() else set()
+                new = after - before
+                if err is None or "injected" not in err:
+                    rec.violation("project:failed-save-not-reported", ctx, f"injected OSError in {point} during optimize(result_name={name!r}) surfaced as {err!r}")
+                    return prefix_sharing
+                if new:
+                    want = model.optimize(name)
+                    if new != {want}:
+                        rec.violation("project:run-folder:failed-save", ctx, f"failed optimize(result_name={name!r}) created {sorted(new)}, expected at most ['{want}']")
+                        return prefix_sharing
+                    incomplete.add(want)
+                    run_hashes[want] = folder_hash(want)
+                for f, h in run_hashes.items():
+                    if folder_hash(f) != h:
+                        rec.violation("project:earlier-run-changed", ctx, f"run folder {f} changed during a later, failing optimize")
+                        return prefix_sharing
+            elif kind == "optimize":
                 before = set(p.name for p in results_dir.iterdir()) if results_dir.exists() else set()
                 try:
                     proj.optimize("m", "p", result_name=name, maximum_number_function_evaluations=1)
@@ -392,12 +433,16 @@ def run_history(rng, rec, scratch, hist_id, length):
                     return prefix_sharing
                 for f, h in run_hashes.items():
                     if folder_hash(f) != h:
-                        rec.violation("project:earlier-run-changed", ctx, f"run folder {f} changed after a later optimize")
+                        rec.violation("project:earlier-run-changed" + (":incomplete-folder-reused" if f in incomplete else ""), ctx, f"run folder {f} changed after a later optimize")
                         return prefix_sharing
                 run_hashes[want] = folder_hash(want)
             elif kind == "lookup":
                 for q in names:
                     want = model.latest(q)
+                    if want in incomplete:
+                        # the newest run folder of this name holds no result: what 'latest' denotes is not fixed by the property
+                        rec.skip("lookup of a name whose newest run folder is incomplete")
+                        continue
                     for how in ("get_latest_result_path", "get_result_path(latest=True)", "latest-with-run-specifier", "load_latest_result"):
                         rec.count("history_lookups_compared")
                         try:
@@ -421,7 +466,7 @@ def run_history(rng, rec, scratch, hist_id, length):
                                           f"{how}({q!r}) resolved to {got!r}, the newest run of exactly that name is {want!r} (runs {model.all_folders()})")
                             return prefix_sharing
                 # earlier runs stay loadable
-                for f in model.all_folders()[:3]:
+                for f in [x for x in model.all_folders() if x not in incomplete][:3]:
                     try:
                         proj.load_result(f)
                     except Exception as e:  # noqa
